@@ -8,6 +8,7 @@ import (
 	"net/http"
 	"net/http/httptest"
 	"net/url"
+	"strconv"
 	"strings"
 
 	"github.com/getkin/kin-openapi/openapi3"
@@ -26,41 +27,71 @@ type c07Param struct {
 	Text string `json:"text"`
 }
 
+type c07SecList struct {
+	Absent bool       `json:"absent"`
+	List   [][]string `json:"list"`
+}
+
+// c07Step: a further validation in the same process (RequestCheck!View): through an alias path item holding the same
+// Operation value ("share"), a sibling operation of the same path item ("sibling"), the same route after the document
+// was edited in place ("edit"), the first route with its original content restored ("back")
+type c07Step struct {
+	Via     string     `json:"via"`
+	PParams []c07Param `json:"pparams"`
+	OParams []c07Param `json:"oparams"`
+	OpSec   c07SecList `json:"opSec"`
+	DocSec  [][]string `json:"docSec"`
+	BDecl   string     `json:"bdecl"`
+}
+
 type c07Case struct {
-	OpSec struct {
-		Absent bool       `json:"absent"`
-		List   [][]string `json:"list"`
-	} `json:"opSec"`
-	DocSec        [][]string `json:"docSec"`
-	Accepts       []string   `json:"accepts"`
-	PParams       []c07Param `json:"pparams"`
-	OParams       []c07Param `json:"oparams"`
-	Values        []c07Param `json:"values"`
-	Body          string     `json:"body"`
-	Multi         bool       `json:"multi"`
-	ExclBody      bool       `json:"exclBody"`
-	ExclQuery     bool       `json:"exclQuery"`
-	AuthReadsBody bool       `json:"authReadsBody"`
+	OpSec   c07SecList `json:"opSec"`
+	DocSec  [][]string `json:"docSec"`
+	Accepts []string   `json:"accepts"`
+	PParams []c07Param `json:"pparams"`
+	OParams []c07Param `json:"oparams"`
+	Values  []c07Param `json:"values"`
+	// BDecl: what the operation declares ("none": no requestBody, "optional", "required"); Body: what the request
+	// carries ("none": no body, "empty": a body of length 0, "pass" / "fail": JSON valid / invalid against the schema,
+	// "otherct": bytes under an undeclared content type, "badjson": not JSON)
+	BDecl         string `json:"bdecl"`
+	Body          string `json:"body"`
+	Multi         bool   `json:"multi"`
+	ExclBody      bool   `json:"exclBody"`
+	ExclQuery     bool   `json:"exclQuery"`
+	AuthReadsBody bool   `json:"authReadsBody"`
 	// Unsized: the body comes from a reader net/http cannot size (ContentLength 0 = unknown, as for a
 	// request built around a pipe or a MultiReader)
 	Unsized bool `json:"unsized"`
 	// NilSec: the operation's empty security list is built in code: a non-nil pointer to a nil slice
-	NilSec bool `json:"nilsec"`
+	NilSec bool      `json:"nilsec"`
+	Hist   []c07Step `json:"hist"`
+	// Opts: "skipdefaults" / "exclreadonly": an option the statement does not mention is set; "nil": no Options at all
+	Opts string `json:"opts"`
+	// PRefs: "path" / "op" / "both": the parameters of that level are $refs to components.parameters
+	PRefs string `json:"prefs"`
 }
 
 func c07Sec(reqs [][]string) []any {
 	out := []any{}
 	for _, r := range reqs {
 		m := map[string]any{}
-		for _, s := range r {
-			m[s] = []any{}
+		for _, s := range r { // an atom "A+r+w" is scheme A with the scopes r, w
+			f := strings.Split(s, "+")
+			scopes := []any{}
+			for _, sc := range f[1:] {
+				scopes = append(scopes, sc)
+			}
+			m[f[0]] = scopes
 		}
 		out = append(out, m)
 	}
 	return out
 }
 
-func c07ParamJSON(ps []c07Param) []any {
+// c07ParamJSON renders the parameters of one level; with comps != nil every parameter is declared under
+// components.parameters and the level holds a $ref to it
+func c07ParamJSON(ps []c07Param, level string, comps map[string]any) []any {
 	out := []any{}
 	for _, p := range ps {
 		sch := map[string]any{"type": "integer"}
@@ -68,12 +99,25 @@ func c07ParamJSON(ps []c07Param) []any {
 			sch = map[string]any{"type": "string", "pattern": "^x"}
 		}
 		m := map[string]any{"name": p.Name, "in": p.In, "schema": sch}
+		if p.Kind == "cint" { // described by content instead of schema
+			delete(m, "schema")
+			m["content"] = map[string]any{"application/json": map[string]any{"schema": sch}}
+		}
+		if p.In == "path" {
+			m["required"] = true
+		}
 		switch p.Kind {
 		case "reqint":
 			m["required"] = true
 		case "reqintd":
 			m["required"] = true
 			sch["default"] = 1
+		}
+		if comps != nil {
+			name := level + "_" + p.In + "_" + p.Name
+			comps[name] = m
+			out = append(out, map[string]any{"$ref": "#/components/parameters/" + name})
+			continue
 		}
 		out = append(out, m)
 	}
@@ -97,46 +141,138 @@ func c07Part(e error) string {
 	return "other"
 }
 
-func c07Run(c *Case) []any {
-	var tc c07Case
-	c.Decode(&tc)
-	var raw map[string]any
-	c.Decode(&raw)
-	line := map[string]any{"case": c.Idx, "c": raw}
+func c07Op(oparams []c07Param, sec c07SecList, bdecl string, comps map[string]any) map[string]any {
 	op := map[string]any{"responses": map[string]any{"200": map[string]any{"description": "ok"}}}
-	if !tc.OpSec.Absent {
-		op["security"] = c07Sec(tc.OpSec.List)
+	if !sec.Absent {
+		op["security"] = c07Sec(sec.List)
 	}
-	if len(tc.OParams) > 0 {
-		op["parameters"] = c07ParamJSON(tc.OParams)
+	if len(oparams) > 0 {
+		op["parameters"] = c07ParamJSON(oparams, "op", comps)
 	}
-	if tc.Body != "none" {
-		op["requestBody"] = map[string]any{"required": true, "content": map[string]any{"application/json": map[string]any{
+	if bdecl != "none" && bdecl != "" {
+		op["requestBody"] = map[string]any{"required": bdecl == "required", "content": map[string]any{"application/json": map[string]any{
 			"schema": map[string]any{"type": "object", "required": []any{"k"}}}}}
 	}
-	pathItem := map[string]any{"post": op}
-	if len(tc.PParams) > 0 {
-		pathItem["parameters"] = c07ParamJSON(tc.PParams)
+	return op
+}
+
+// c07Load builds the document of one view (path item /t: path-level parameters, the POST operation, sibling operations
+// under other methods) and loads it through the real loader
+func c07Load(tpath string, pparams []c07Param, ops map[string]any, docSec [][]string, pcomps, comps map[string]any) (*openapi3.T, error) {
+	pathItem := map[string]any{}
+	for m, op := range ops {
+		pathItem[m] = op
+	}
+	if len(pparams) > 0 {
+		pathItem["parameters"] = c07ParamJSON(pparams, "path", pcomps)
 	}
 	schemes := map[string]any{}
 	for _, s := range []string{"A", "B", "C"} {
 		schemes[s] = map[string]any{"type": "apiKey", "in": "header", "name": "X-" + s}
 	}
 	doc := map[string]any{"openapi": "3.0.3", "info": map[string]any{"title": "t", "version": "1"},
-		"components": map[string]any{"securitySchemes": schemes},
-		"paths":      map[string]any{"/t": pathItem}}
-	if len(tc.DocSec) > 0 {
-		doc["security"] = c07Sec(tc.DocSec)
+		"components": map[string]any{"securitySchemes": schemes, "parameters": comps},
+		"paths":      map[string]any{tpath: pathItem}}
+	if len(docSec) > 0 {
+		doc["security"] = c07Sec(docSec)
 	}
 	data, _ := json.Marshal(doc)
 	d, err := openapi3.NewLoader().LoadFromData(data)
 	if err == nil {
 		err = d.Validate(context.Background())
 	}
+	return d, err
+}
+
+var c07SiblingMethods = []string{"put", "patch", "delete"}
+
+func c07Project(verr error, panicked bool) (string, []any) {
+	parts := []any{}
+	switch {
+	case panicked:
+		return "panic", parts
+	case verr == nil:
+		return "ok", parts
+	}
+	if me, ok := verr.(openapi3.MultiError); ok {
+		for _, e := range me {
+			parts = append(parts, c07Part(e))
+		}
+	} else {
+		parts = append(parts, c07Part(verr))
+	}
+	return "error", parts
+}
+
+func c07Run(c *Case) []any {
+	var tc c07Case
+	c.Decode(&tc)
+	var raw map[string]any
+	c.Decode(&raw)
+	line := map[string]any{"case": c.Idx, "c": raw}
+	if tc.BDecl == "" { // a case recorded before the declaration became a dimension of its own
+		tc.BDecl = "none"
+		if tc.Body != "none" {
+			tc.BDecl = "required"
+		}
+		raw["bdecl"] = tc.BDecl
+	}
+	if _, ok := raw["hist"]; !ok {
+		raw["hist"] = []any{}
+	}
+	// a parameter in the path makes the path a template; the request then carries the value as a segment
+	tpath, rpath := "/t", "/t"
+	for _, ps := range [][]c07Param{tc.PParams, tc.OParams} {
+		for _, p := range ps {
+			if p.In == "path" {
+				tpath = "/t/{" + p.Name + "}"
+			}
+		}
+	}
+	for _, v := range tc.Values {
+		if v.In == "path" {
+			rpath = "/t/" + v.Text
+		}
+	}
+	// PRefs: the parameters of that level are $refs into components.parameters
+	comps := map[string]any{}
+	var pcomps, ocomps map[string]any
+	if tc.PRefs == "path" || tc.PRefs == "both" {
+		pcomps = comps
+	}
+	if tc.PRefs == "op" || tc.PRefs == "both" {
+		ocomps = comps
+	}
+	ops := map[string]any{"post": c07Op(tc.OParams, tc.OpSec, tc.BDecl, ocomps)}
+	stepMethod := map[int]string{}
+	for i, s := range tc.Hist {
+		if s.Via == "sibling" {
+			m := c07SiblingMethods[len(stepMethod)%len(c07SiblingMethods)]
+			stepMethod[i] = m
+			ops[m] = c07Op(s.OParams, s.OpSec, s.BDecl, nil)
+		}
+	}
+	d, err := c07Load(tpath, tc.PParams, ops, tc.DocSec, pcomps, comps)
 	if err != nil {
 		line["doc"] = "error"
 		line["docErr"] = err.Error()
 		return []any{line}
+	}
+	// the documents of the other views: their loaded parts are what an alias path item holds / what an edit installs
+	views := map[int]*openapi3.T{}
+	for i, s := range tc.Hist {
+		if s.Via == "share" || s.Via == "edit" {
+			dv, err := c07Load(tpath, s.PParams, map[string]any{"post": c07Op(s.OParams, s.OpSec, s.BDecl, nil)}, s.DocSec, nil, map[string]any{})
+			if err != nil {
+				line["doc"] = "error"
+				line["docErr"] = err.Error()
+				return []any{line}
+			}
+			views[i] = dv
+			if s.Via == "share" { // an alias path: another path item around the SAME Operation value
+				d.Paths.Set("/u"+strconv.Itoa(i), &openapi3.PathItem{Post: d.Paths.Value(tpath).Post, Parameters: dv.Paths.Value(tpath).Parameters})
+			}
+		}
 	}
 	line["doc"] = "ok"
 	router, err := gorillamux.NewRouter(d)
@@ -149,34 +285,45 @@ func c07Run(c *Case) []any {
 			q.Set(v.Name, v.Text)
 		}
 	}
-	target := "/t"
-	if len(q) > 0 {
-		target += "?" + q.Encode()
-	}
-	mkReq := func() *http.Request {
+	mkReqTo := func(method, path string) *http.Request {
+		target := path
+		if len(q) > 0 {
+			target += "?" + q.Encode()
+		}
 		var body io.Reader
+		ct := "application/json"
 		switch tc.Body {
+		case "empty":
+			body = strings.NewReader("")
 		case "pass":
 			body = strings.NewReader(`{"k":1}`)
 		case "fail":
 			body = strings.NewReader(`{}`)
+		case "otherct":
+			body, ct = strings.NewReader(`hello`), "text/plain"
+		case "badjson":
+			body = strings.NewReader(`{"k":`)
 		}
-		req := httptest.NewRequest("POST", target, body)
+		req := httptest.NewRequest(method, target, body)
 		if tc.Unsized && body != nil {
 			req.Body = io.NopCloser(io.MultiReader(body))
 			req.ContentLength = 0
 			req.GetBody = nil
 		}
 		if body != nil {
-			req.Header.Set("Content-Type", "application/json")
+			req.Header.Set("Content-Type", ct)
 		}
 		for _, v := range tc.Values {
-			if v.In == "header" {
+			switch v.In {
+			case "header":
 				req.Header.Set(v.Name, v.Text)
+			case "cookie":
+				req.AddCookie(&http.Cookie{Name: v.Name, Value: v.Text})
 			}
 		}
 		return req
 	}
+	mkReq := func() *http.Request { return mkReqTo("POST", rpath) }
 	req := mkReq()
 	route, pp, err := router.FindRoute(req)
 	if err != nil {
@@ -193,69 +340,95 @@ func c07Run(c *Case) []any {
 	calls := []any{}
 	opts := &openapi3filter.Options{MultiError: tc.Multi, ExcludeRequestBody: tc.ExclBody, ExcludeRequestQueryParams: tc.ExclQuery,
 		AuthenticationFunc: func(_ context.Context, in *openapi3filter.AuthenticationInput) error {
-			calls = append(calls, in.SecuritySchemeName)
+			atom := strings.Join(append([]string{in.SecuritySchemeName}, in.Scopes...), "+")
+			calls = append(calls, atom)
 			if tc.AuthReadsBody && in.RequestValidationInput.Request.Body != nil {
 				io.ReadAll(in.RequestValidationInput.Request.Body)
 			}
-			if accepts[in.SecuritySchemeName] {
+			if accepts[atom] {
 				return nil
 			}
 			return errors.New("rejected")
 		}}
+	switch tc.Opts {
+	case "skipdefaults":
+		opts.SkipSettingDefaults = true
+	case "exclreadonly":
+		opts.ExcludeReadOnlyValidations = true
+	case "nocallback": // Options without an AuthenticationFunc
+		opts.AuthenticationFunc = nil
+	case "nil": // no Options value at all
+		opts = nil
+	}
 	input := &openapi3filter.RequestValidationInput{Request: req, PathParams: pp, Route: route, Options: opts}
 	var verr error
-	if p, _ := guard(func() { verr = openapi3filter.ValidateRequest(context.Background(), input) }); p {
-		line["verdict"] = "panic"
-		line["parts"] = []any{}
-	} else if verr == nil {
-		line["verdict"] = "ok"
-		line["parts"] = []any{}
-	} else {
-		line["verdict"] = "error"
-		parts := []any{}
-		if me, ok := verr.(openapi3.MultiError); ok {
-			line["ismulti"] = true
-			for _, e := range me {
-				parts = append(parts, c07Part(e))
-			}
-		} else {
-			line["ismulti"] = false
-			parts = append(parts, c07Part(verr))
-		}
-		line["parts"] = parts
+	p, _ := guard(func() { verr = openapi3filter.ValidateRequest(context.Background(), input) })
+	line["verdict"], line["parts"] = c07Project(verr, p)
+	if verr != nil && !p {
+		_, ismulti := verr.(openapi3.MultiError)
+		line["ismulti"] = ismulti
 	}
 	line["calls"] = calls
 	if line["verdict"] != "panic" {
 		// history: the same document serves a validation of the same request with every exclusion option on, then the
 		// case again: the third answer is judged like the first, and the document must not have changed
 		before := docDigest(d)
-		callsSoFar := calls
-		other := *opts
+		var other openapi3filter.Options
+		if opts != nil {
+			other = *opts
+		}
 		other.ExcludeRequestBody, other.ExcludeRequestQueryParams, other.MultiError = true, true, !tc.Multi
 		guard(func() {
 			openapi3filter.ValidateRequest(context.Background(), &openapi3filter.RequestValidationInput{Request: mkReq(), PathParams: pp, Route: route, Options: &other})
 		})
 		var verr3 error
-		if p, _ := guard(func() {
+		p3, _ := guard(func() {
 			verr3 = openapi3filter.ValidateRequest(context.Background(), &openapi3filter.RequestValidationInput{Request: mkReq(), PathParams: pp, Route: route, Options: opts})
-		}); p {
-			line["verdict3"], line["parts3"] = "panic", []any{}
-		} else if verr3 == nil {
-			line["verdict3"], line["parts3"] = "ok", []any{}
-		} else {
-			parts := []any{}
-			if me, ok := verr3.(openapi3.MultiError); ok {
-				for _, e := range me {
-					parts = append(parts, c07Part(e))
-				}
-			} else {
-				parts = append(parts, c07Part(verr3))
-			}
-			line["verdict3"], line["parts3"] = "error", parts
-		}
-		line["calls"] = callsSoFar
+		})
+		line["verdict3"], line["parts3"] = c07Project(verr3, p3)
 		line["docSame"] = before == docDigest(d) || tc.NilSec // (a nil slice marshals as null: the digest is taken after it was set)
 	}
+	// the further validations of the history, in order
+	steps := []any{}
+	orig := struct {
+		pp   openapi3.Parameters
+		op   openapi3.Parameters
+		sec  *openapi3.SecurityRequirements
+		body *openapi3.RequestBodyRef
+		dsec openapi3.SecurityRequirements
+	}{route.PathItem.Parameters, route.Operation.Parameters, route.Operation.Security, route.Operation.RequestBody, d.Security}
+	for i, s := range tc.Hist {
+		method, path := "POST", rpath
+		switch s.Via {
+		case "share":
+			path = "/u" + strconv.Itoa(i)
+		case "sibling":
+			method = strings.ToUpper(stepMethod[i])
+		case "edit": // the document is edited in place: the parts of the loaded view document are installed
+			vpi := views[i].Paths.Value(tpath)
+			route.PathItem.Parameters = vpi.Parameters
+			route.Operation.Parameters = vpi.Post.Parameters
+			route.Operation.Security = vpi.Post.Security
+			route.Operation.RequestBody = vpi.Post.RequestBody
+			d.Security = views[i].Security
+		case "back":
+			route.PathItem.Parameters, route.Operation.Parameters, route.Operation.Security, route.Operation.RequestBody, d.Security =
+				orig.pp, orig.op, orig.sec, orig.body, orig.dsec
+		}
+		sreq := mkReqTo(method, path)
+		sroute, spp, err := router.FindRoute(sreq)
+		if err != nil {
+			panic("harness: c07 step route: " + err.Error())
+		}
+		calls = []any{}
+		var serr error
+		sp, _ := guard(func() {
+			serr = openapi3filter.ValidateRequest(context.Background(), &openapi3filter.RequestValidationInput{Request: sreq, PathParams: spp, Route: sroute, Options: opts})
+		})
+		v, parts := c07Project(serr, sp)
+		steps = append(steps, map[string]any{"verdict": v, "parts": parts, "calls": calls})
+	}
+	line["steps"] = steps
 	return []any{line}
 }
 
@@ -263,6 +436,6 @@ func init() {
 	drivers["C07"] = &Driver{Run: c07Run, Abnormal: func(c *Case, kind string) []any {
 		var raw map[string]any
 		c.Decode(&raw)
-		return []any{map[string]any{"case": c.Idx, "c": raw, "doc": "ok", "verdict": kind, "parts": []any{}, "calls": []any{}}}
+		return []any{map[string]any{"case": c.Idx, "c": raw, "doc": "ok", "verdict": kind, "parts": []any{}, "calls": []any{}, "steps": []any{}}}
 	}}
 }
